@@ -502,7 +502,67 @@ func (c *Ctx) isLoopCtx(m *reconnModel, v ssa.Value) bool {
 		}
 		return false
 	}
-	return val != nil && c.Resolve(v) == val
+	if val != nil && c.Resolve(v) == val {
+		return true
+	}
+	if set := c.loopCtxValues(m); set != nil {
+		return set[v] || set[c.Resolve(v)]
+	}
+	return false
+}
+
+// loopCtxValues: when the loop's context is not a captured variable but a value carried round the loop (`ctx = …` in
+// the loop body makes it a join at the loop header), the joins and the parameter that denote it at the various points of
+// the loop: everything connected to the context DialContext is called with through joins.
+func (c *Ctx) loopCtxValues(m *reconnModel) map[ssa.Value]bool {
+	if m.Dial == nil {
+		return nil
+	}
+	var arg ssa.Value
+	for _, a := range m.Dial.Call.Args {
+		if types.TypeString(a.Type(), nil) == "context.Context" {
+			arg = a
+		}
+	}
+	if arg == nil {
+		return nil
+	}
+	if _, isPhi := arg.(*ssa.Phi); !isPhi {
+		return nil
+	}
+	set := map[ssa.Value]bool{arg: true}
+	for changed := true; changed; {
+		changed = false
+		eachInstr(m.F, func(in ssa.Instruction) {
+			phi, ok := in.(*ssa.Phi)
+			if !ok || types.TypeString(phi.Type(), nil) != "context.Context" {
+				return
+			}
+			member := set[phi]
+			for _, e := range phi.Edges {
+				if set[e] {
+					member = true
+				}
+			}
+			if !member {
+				return
+			}
+			if !set[phi] {
+				set[phi] = true
+				changed = true
+			}
+			for _, e := range phi.Edges {
+				switch e.(type) {
+				case *ssa.Phi, *ssa.Parameter:
+					if !set[e] {
+						set[e] = true
+						changed = true
+					}
+				}
+			}
+		})
+	}
+	return set
 }
 
 // ruleLoopOutlivesConnectCtx: once the first connection is established the reconnect loop must stop depending on the context
@@ -517,6 +577,40 @@ func (c *Ctx) ruleLoopOutlivesConnectCtx(rr *RuleRep) {
 	}
 	key := FuncName(m.F) + "/outlives-connect-ctx"
 	cell, _ := c.loopCtxCell(m)
+	if set := c.loopCtxValues(m); cell == nil && set != nil {
+		// the context carried round the loop as a value: some join takes context.Background() over an edge that lies behind
+		// a successful Connect, and no join takes anything else that is new
+		var rebound ssa.Instruction
+		for v := range set {
+			phi, ok := v.(*ssa.Phi)
+			if !ok {
+				continue
+			}
+			for i, e := range phi.Edges {
+				if set[e] || i >= len(phi.Block().Preds) {
+					continue
+				}
+				call, _ := c.asCall(e)
+				pred := phi.Block().Preds[i]
+				if call == nil || !isStdCall(&call.Call, "context", "Background") || len(pred.Instrs) == 0 {
+					rr.Bad(key, phi.Pos(), "the context the reconnect loop runs under is replaced by something other than context.Background()")
+					return
+				}
+				last := pred.Instrs[len(pred.Instrs)-1]
+				for _, ok := range m.ConnOK {
+					if DominatedByEdge(m.F, last, ok.B, ok.K, PathQ{}) {
+						rebound = call
+					}
+				}
+			}
+		}
+		if rebound != nil {
+			rr.OK(key, rebound.Pos(), "the context carried round the loop becomes context.Background() behind a successful Connect")
+			return
+		}
+		rr.Bad(key, m.Dial.Pos(), "the context the reconnect loop dials with is never rebound to context.Background() after the first success: once the context passed to Connect has ended, the next connection loss stops the loop and accepted requests are never carried out")
+		return
+	}
 	if cell == nil {
 		rr.Bad(key, m.Dial.Pos(), "the reconnect loop dials with a context that is never replaced: after the first connection it still depends on the context passed to Connect, and stops redialling once that context has ended")
 		return
